@@ -22,6 +22,8 @@ pub struct RawRun {
     pub probes: u64,
     /// comparisons performed after the clock first answered "exceeded"
     pub cmp_after: Option<u64>,
+    /// comparisons performed by the whole run
+    pub cmp_total: u64,
 }
 
 /// entry: 1 = algorithms::diff_deadline, 3 = <alg>::diff_deadline, 4 = diff_slices_deadline
@@ -37,7 +39,9 @@ pub fn raw_deadline(
     let mut rec = Rec::new();
     let mut probes = 0;
     let mut cmp_after = None;
+    let mut cmp_total = 0;
     let r = subject(|| {
+        let c0 = cmp_count();
         let clock = arm_clock(k.unwrap_or(u64::MAX));
         let dl = if with_deadline { some_deadline() } else { None };
         let r = if entry == 4 {
@@ -47,6 +51,7 @@ pub fn raw_deadline(
         };
         probes = clock.probes.get();
         cmp_after = clock.cmp_at_expiry.get().map(|c| cmp_count() - c);
+        cmp_total = cmp_count() - c0;
         r
     });
     match r {
@@ -56,6 +61,7 @@ pub fn raw_deadline(
             calls: rec.calls,
             probes,
             cmp_after,
+            cmp_total,
         }),
     }
 }
@@ -183,6 +189,22 @@ pub fn check_input(alg: Algorithm, old8: &[u8], new8: &[u8], deep: bool) -> Resu
         }
     }
 
+    // deadline already expired before the start: the whole run must be cheap, whether or not
+    // the algorithm ever asks the clock
+    {
+        let r = raw_deadline(alg, 1, &old, &new, Some(0), true)
+            .map_err(|e| format!("deadline expired before the start: {}", e))?;
+        runs += 1;
+        validate_stream(&r.calls, &old, 0..n, &new, 0..m, true)
+            .map_err(|e| format!("deadline expired before the start: {}", e))?;
+        if r.cmp_total > prompt_bound(n, m) {
+            return Err(format!(
+                "deadline expired before the start: {} element comparisons in total, bound 8*(N+M)+32 = {}",
+                r.cmp_total,
+                prompt_bound(n, m)
+            ));
+        }
+    }
     for k in 0..pinf {
         let r = raw_deadline(alg, 1, &old, &new, Some(k), true)
             .map_err(|e| format!("expiry at probe {}: {}", k, e))?;
@@ -329,6 +351,23 @@ pub fn check_family(alg: Algorithm, name: &str, old: &[u32], new: &[u32]) -> Res
     let mut runs = 1;
     let mut transitions = inf.calls.len() as u64;
     let mut fp = Fp::new();
+    {
+        let r = raw_deadline(alg, 1, &old, &new, Some(0), true)
+            .map_err(|e| format!("{}: deadline expired before the start: {}", name, e))?;
+        runs += 1;
+        validate_stream(&r.calls, &old, 0..n, &new, 0..m, true)
+            .map_err(|e| format!("{}: deadline expired before the start: {}", name, e))?;
+        let ratio = r.cmp_total as f64 / (n + m) as f64;
+        if ratio > worst {
+            worst = ratio;
+        }
+        if r.cmp_total > prompt_bound(n, m) {
+            return Err(format!(
+                "{} ({} vs {} items): deadline expired before the start, yet {} element comparisons in total, bound 8*(N+M)+32 = {}",
+                name, n, m, r.cmp_total, prompt_bound(n, m)
+            ));
+        }
+    }
     for k in 0..inf.probes {
         let r = raw_deadline(alg, 1, &old, &new, Some(k), true)
             .map_err(|e| format!("{}: expiry at probe {}: {}", name, k, e))?;
